@@ -8,6 +8,7 @@ A history is a list of ops (JSON lists):
   ["activate", kind, form, sref, script, args, kwargs, scripts?]     scripts = one script per further nesting level
   ["group", kind, outer, byform, sref, m, script, args, kwargs, scripts?]
   ["grouplist", outer, byform, sref, m, script, args, kwargs, scripts?]   groupby(result_type="list").do/map(callable)
+  ["groupcount" | "groupagg", byform, sref, m]  groupby(...).count() / .agg("unique_id", sum)
   ["foreignset", n, order]                      a second model with n agents + a set mixing both models (oracle only)
 with  A      = ["nop"] | ["rmself", keep] | ["rm", id, keep] | ["create", cls, n, keep] | ["drop", id] | ["add", id]
                | ["raise"]                      the callback raises (the activation is aborted)
@@ -32,7 +33,7 @@ COQ_IMPORTS = "From Mesa Require Import Model.Activation."
 COQ_CASE_TYPE = "case"
 COQ_RUN = "run_case"
 TABLE_CONSTRUCTS = ["agentset_do_code", "agentset_shuffle_do_code", "agentset_map_code", "groupby_do_code", "groupby_map_code",
-                    "groupby_count_agg_skeleton",
+                    "groupby_count_code", "groupby_agg_code", "agentset_shuffle_groupby_skeleton",
                     # extracted by harness/tables/registry.py (C02 builder), reused here
                     "agent_first_id", "deregister_order", "register_order", "remove_suppresses_keyerror"]
 ENUM_ALWAYS = False
@@ -212,6 +213,9 @@ def _rand_case(rng, big=False):
                     nid += a[2]
         if rng.random() < 0.25:
             ops.append(["collect"])
+        if rng.random() < 0.15:
+            ops.append([rng.choice(["groupcount", "groupagg"]), rng.choice(["attr", "callable"]), _rand_sref(rng, max(1, len(usets))),
+                        rng.choice([1, 2, 3])])
         if rng.random() < 0.3:
             ops.append(["act", _rand_act(rng, hint)])
     return {"ops": ops}
@@ -997,6 +1001,30 @@ def _run_impl(env, case):
                     obs.append(o + ([-37] if raised else [-32]) + [-38] + run.nlog + run.view())
                     mop = ["grouplist", outer, byform, sref, m, _model_script(script, run.nested_perms), full, [],
                            [_model_script(sc, run.nested_perms, lv + 1) for lv, sc in enumerate(scripts)]]
+            elif kind in ("groupcount", "groupagg"):
+                # groupby(...).count()  /  groupby(...).agg("unique_id", sum)
+                _, byform, sref, m = op
+                s = run.resolve(sref)
+                if s is None or m not in (1, 2, 3):
+                    obs.append([-2])
+                else:
+                    snap = run.ids(s)
+                    gb = s.groupby(f"g{m}") if byform == "attr" else s.groupby(lambda a: a._hid % m)
+                    res = gb.count() if kind == "groupcount" else gb.agg("_hid", sum)
+                    keys = []
+                    for a in snap:
+                        if a % m not in keys:
+                            keys.append(a % m)
+                    want = {k: (len([a for a in snap if a % m == k]) if kind == "groupcount" else sum(a for a in snap if a % m == k)) for k in keys}
+                    if not isinstance(res, dict) or list(res.items()) != list(want.items()):
+                        failures.append({"key": f"C04/groupby-{kind[5:]}/results", "op": opi,
+                                         "what": f"groupby(id mod {m}).{kind[5:]}() over members {snap} returned {res!r}; required (first-seen key order) {want}"})
+                    o = [-39]
+                    if isinstance(res, dict):
+                        for k, v in res.items():
+                            o += [int(k), int(v)] if isinstance(v, int) else [int(k), -99]
+                    del gb
+                    obs.append(o + run.view())
             elif kind == "foreignset":
                 # a second model with n agents and a program-made set mixing its agents with ours (oracle only: the Gallina
                 # model has one registry).  ["foreignset", n, [ids in set order; ids >= 1001 name the foreign agents]]
@@ -1123,6 +1151,8 @@ def coq_case(case):
             _, outer, byform, sref, m, script, args, kwargs, scripts = op[:9]
             ok = m in (1, 2, 3) and outer in ("do", "map")
             out.append(f"OGroupList {_sref(sref)} {L.z(m if ok else 0)} {_script(script)} {_scripts_lit(scripts)} {L.zlist(list(args) + list(kwargs))}")
+        elif k in ("groupcount", "groupagg"):
+            out.append(f"{'OGroupCount' if k == 'groupcount' else 'OGroupAgg'} {_sref(op[2])} {L.z(op[3] if op[3] in (1, 2, 3) else 0)}")
         elif k == "foreignset":
             out.append("OCollect")   # never evaluated: histories with a second model are oracle-only
         else:
@@ -1147,6 +1177,8 @@ def op_kinds(case):
             out.append(f"groupby-list.{op[1]}/{op[2]}")
         elif op[0] == "foreignset":
             out.append("second-model-set")
+        elif op[0] in ("groupcount", "groupagg"):
+            out.append(f"groupby.{op[0][5:]}/{op[1]}")
         elif op[0] == "act":
             out.append("program:" + op[1][0])
         else:
